@@ -231,6 +231,11 @@ func report(o *options, p *Program, units []*UnitResult, loadSecs, genSecs, solv
 			}
 			// failed obligation
 			kf := matchKnown(known, o.prop, ob.Name)
+			if kf != nil && kf.Guard != "" {
+				// a guarded finding covers only inputs inside its guard (the @inside-known-guard probe); this is the
+				// same obligation failing OUTSIDE the guard: a different violation, reported
+				kf = nil
+			}
 			if kf != nil {
 				knownHits = append(knownHits, fmt.Sprintf("KNOWN-FINDING: property=%s %s (%s)", o.prop, kf.What, ob.Name))
 				obligations-- // guarded: not counted as a claimed obligation
